@@ -1101,8 +1101,8 @@ def run(chk):
     import tensorly as tl
     from tensorly.cp_tensor import CPTensor, cp_normalize, cp_flip_sign, cp_permute_factors, cp_mode_dot, cp_to_tensor
     quick = chk.tier == "quick"
-    mult = 1 if quick else 8
-    n_cp = 110 if quick else 1200          # quick: sample sizes trimmed in round 6 (CPU budget); thorough keeps the former 8 x 150
+    mult = 1 if quick else 6               # round 8: thorough thinned from 8 (782 CPU-s, 24 min wall at load 95) to fit <= 10 CPU-min
+    n_cp = 110 if quick else 800           # quick: sample sizes trimmed in round 6 (CPU budget); thorough: 1200 until round 8
     cases, meta = [], []
 
     def add_case(body, descr):
